@@ -20,7 +20,7 @@ from . import common
 
 ID = 'C07'
 LEVEL = 'exploration'
-RUNS = {'quick': 2500, 'thorough': 60000}
+RUNS = {'quick': 4000, 'thorough': 100000}
 SIM_TIME_UNIT = 'samples / dense time units'
 RULE = ('seeded generation of (iff/xor-free sorted specification, monitor kind, data); for up to 4 instants with finite non-zero '
         'robustness the noise fault is injected 6 + 2*(#predicates) times (adversarial toward each threshold, all up, all down, '
@@ -32,7 +32,8 @@ ASSUMPTIONS = ['RefBool = Kleene evaluation of the reference evaluators over {-1
                'online kinds: past-time formulas; dense: sensors start at 0']
 REAL = common.REAL_ALL
 STUBS = common.STUBS_ALL
-PROBES = ['positive_verdict', 'negative_verdict', 'zero_robustness_no_claim', 'perturbation_clause', 'nested_not_or_implies',
+ENVELOPE_RULES = ['memory-past-above-delayed (F08) for the pastified online monitor']
+PROBES = ['pastified', 'positive_verdict', 'negative_verdict', 'zero_robustness_no_claim', 'perturbation_clause', 'nested_not_or_implies',
           'dense_time', 'online']
 INF = float('inf')
 
@@ -47,22 +48,49 @@ def gen(rng, tier):
         ops = common.DENSE_OFFLINE_OPS if dense else set(sg.ALL_OPS)
     else:
         ops = common.DENSE_PAST_OPS if dense else common.PAST_OPS
+    future = (not dense) and mode == 'on' and rng.random() < 0.4
+    if future:
+        ops = set(ops) | {'eventually_b', 'always_b', 'until_b', 'next'}
     ops = set(ops) - {'iff', 'xor'}
     pvc = rng.random() < 0.6
     for _ in range(100):
         ast = sg.gen_formula(rng, sg.GenCfg(vars=vars_, ops=ops, max_depth=rng.randint(2, 5), max_bound=rng.choice([2, 4]),
                                             strict_sorts=True, pred_var_const=pvc, p_reuse=rng.choice([0.0, 0.2])))
-        if sg.vars_of(ast) and ast[0] not in ('var', 'const') and ast[0] not in sg.TERM_UN + sg.TERM_BIN:
+        if sg.vars_of(ast) and ast[0] not in ('var', 'const') and ast[0] not in sg.TERM_UN + sg.TERM_BIN and not _memory_above_future(ast):
             break
-    sc = {'kind': kind, 'mode': mode, 'vars': vars_, 'ast': ast, 'pvc': pvc,
+    if (not dense) and mode == 'on' and rng.random() < 0.3:
+        # directed: a pastified bounded-future operator over variable-vs-constant predicates (magnitude errors of the
+        # delayed operators only show under the noise clause)
+        def pr():
+            return ['pred', rng.choice(['>=', '<=', '>', '<']), ['var', rng.choice(vars_)], ['const', rng.choice(sg.LATTICE)]]
+        lo = rng.randint(0, 2)
+        hi = lo + rng.randint(1, 3)
+        op = rng.choice(['until_b', 'until_b', 'eventually_b', 'always_b'])
+        core_ = [op, lo, hi, pr(), pr()] if op == 'until_b' else [op, lo, hi, pr()]
+        r_ = rng.random()
+        ast = core_ if r_ < 0.5 else (['not', core_] if r_ < 0.7 else [rng.choice(['and', 'or', 'implies']), core_, pr()])
+        pvc = True
+    pastify = mode == 'on' and any(x[0] in sg.FUTURE_OPS for x in sg.walk(ast))
+    sc = {'kind': kind, 'mode': mode, 'vars': vars_, 'ast': ast, 'pvc': pvc, 'pastify': pastify,
           'noise_seeds': [[rng.uniform(-1, 1) for _ in range(40)] for _ in range(3)]}
     if dense:
         sc['signals'] = dict((v, world.gen_dense_signal(rng, rng.randint(1, 6), start_q=0, max_gap_q=4)[0]) for v in vars_)
         sc['nbatches'] = rng.randint(1, 3)
     else:
-        sc['n'] = rng.randint(1, 8)
+        sc['n'] = rng.randint(1, 8) + (int(sg.horizon(ast)) if pastify else 0)
         sc['data'] = world.gen_trace(rng, vars_, sc['n'])
     return sc
+
+
+def _memory_above_future(ast):
+    for x in sg.walk(ast):
+        if x[0] in sg.MEMORY_PAST and any(sg.horizon(c) > 0 for c in sg.children(x)):
+            return True
+    return False
+
+
+def envelope(sc):
+    return common.warmup_visible(sc['ast']) if sc.get('pastify') else []
 
 
 def sign_hook_scalar(node, l, r):
@@ -80,7 +108,7 @@ def sgn(v):
 
 def desc_of(sc):
     dense = sc['kind'].startswith('ct')
-    return {'cls': sc['kind'], 'vars': common.var_decls(sc['vars']),
+    return {'cls': sc['kind'], 'vars': common.var_decls(sc['vars']), 'pastify': bool(sc.get('pastify')),
             'spec': common.dense_text(sc['ast']) if dense else 'out = ' + sg.to_text(sc['ast']) + ';'}
 
 
@@ -104,16 +132,28 @@ def monitor_values(sc, data, r):
 
 def bool_values(sc, data):
     dense = sc['kind'].startswith('ct')
+    if sc.get('pastify'):
+        h = int(sg.horizon(sc['ast']))
+        out = []
+        for i in range(sc['n']):
+            if i < h:
+                out.append(None)
+            else:
+                pre = dict((v, data[v][:i + 1]) for v in data)
+                out.append(eval_discrete(sc['ast'], pre, i + 1, pred_hook=sign_hook_list)[i - h])
+        return out
     if dense:
         used = sg.vars_of(sc['ast'])
         return D.eval_dense(sc['ast'], dict((v, data[v]) for v in used), pred_hook=sign_hook_scalar)
     return eval_discrete(sc['ast'], data, sc['n'], pred_hook=sign_hook_list)
 
 
-def value_at(vals, t, dense):
+def value_at(vals, t, dense, online=False):
     if dense:
         if not vals or t < vals[0][0]:
             return None
+        if online and t > vals[-1][0]:
+            return None        # beyond what the concatenated online output covers: no claim
         return D.at(vals, t)
     return vals[t]
 
@@ -162,6 +202,9 @@ def run(sc):
         if not common.ref_defined([sc['ast']], dense, data, sc.get('n')):
             r.discarded = True
             return r
+        if sc.get('pastify') and not common.ref_defined_on_prefixes([sc['ast']], data, sc['n']):
+            r.discarded = True
+            return r
         bv = bool_values(sc, data)
     except RefError:
         r.discarded = True
@@ -183,8 +226,10 @@ def run(sc):
         instants = [t for t in D.check_points([mv or [], bv], lo, hi)] if hi >= lo else []
         r.sim_time += max(0.0, hi - lo)
     else:
-        instants = list(range(sc['n']))
+        instants = list(range(int(sg.horizon(sc['ast'])) if sc.get('pastify') else 0, sc['n']))
         r.sim_time += sc['n']
+        if sc.get('pastify'):
+            r.probes['pastified'] += 1
     signs = []
     checked = []
     for t in instants:
@@ -233,7 +278,9 @@ def run(sc):
                     r.crashes[e.exc_type] += 1
                     r.violate('api-raised', spec=desc_of(sc), **e.describe())
                     return r
-                rho2 = value_at(mv2, t, dense)
+                rho2 = value_at(mv2, t, dense, online=(sc['mode'] == 'on'))
+                if rho2 is None and dense and sc['mode'] == 'on':
+                    continue       # the re-run covers a shorter span (coverage may depend on the values): nothing to compare
                 r.evals += 1
                 if rho2 is None or sgn(rho2) != sgn(rho):
                     r.violate('monitor-sign-stable-under-noise-below-rho', spec=desc_of(sc), mode=sc['mode'], data=data, t=t, rho=rho,
